@@ -168,8 +168,12 @@ Definition run_dpanic (kind n k : N) : list N :=
        uninitialised; assumed initialised and shared), from_header_and_iter, from_header_and_vec, From<Box<T>>, Arc::new:
        it is not destroyed during construction, exactly once when the last handle goes, the elements once each when
        initialised, and nothing that was never allocated reaches the allocator *)
-    (if (kind <? 34) && (n =? 0) && (k =? 0)
-     then [0; SEP; SEP; 0; 1; (if (29 <=? kind) && (kind <=? 31) then 2 else 0); 0] else [98]) else
+    (* kinds 34..39: a zero-sized value unwrapped by its sole owner (try_unwrap, unwrap_or_clone, try_unique + into_inner,
+       UniqueArc::new + into_inner, TryFrom + into_inner): it comes out undestroyed and is destroyed once by the caller;
+       shared unwrap_or_clone: the clone and the original are destroyed once each.  Last number: blocks allocated and
+       not released (the block of a zero-sized payload still holds the count: it is a real allocation) *)
+    (if (kind <? 40) && (n =? 0) && (k =? 0)
+     then [0; SEP; SEP; 0; (if kind =? 39 then 2 else 1); (if (29 <=? kind) && (kind <=? 31) then 2 else 0); 0; 0] else [98]) else
   if 24 <=? kind then
     (* kinds 24..27: make_mut / OffsetArc::make_mut / make_unique / unwrap_or_clone of a SHARED value whose type has no
        drop glue and is not Copy: exactly one Clone call, the copy is the Clone's result, the other owner's value is
